@@ -539,7 +539,15 @@ class Cid(object):
         _log.debug("create check: %s(%r, %r)", check_type, check_description, check_rule)
         check_class = self._create_check_class(check_type)
         check = check_class.__new__(check_class, check_description, check_rule, self._field_names, self._location)
-        check.__init__(check_description, check_rule, self._field_names, self._location)
+        try:
+            check.__init__(check_description, check_rule, self._field_names, self._location)
+        except errors.InterfaceError as error:
+            if error.location is not None:
+                raise
+            # Tell where in the CID the check is that cannot be declared.
+            raise errors.InterfaceError(
+                "cannot declare check %s: %s" % (_compat.text_repr(check_description), error.message), self._location
+            )
         self._location.set_cell(1)
         existing_check = self._check_name_to_check_map.get(check_description)
         if existing_check is not None:
